@@ -76,11 +76,24 @@ def load_known() -> list:
         return json.load(f).get("findings", [])
 
 
-def match_known(prop: str, violation: dict, ops: list, known: list):
-    """An open finding matches only if property, invariant, site and the trigger op kinds all match."""
+def _cfg_get(cfg, dotted):
+    cur = cfg
+    for part in dotted.split("."):
+        if not isinstance(cur, dict) or part not in cur:
+            return None
+        cur = cur[part]
+    return cur
+
+
+def match_known(prop: str, violation: dict, ops: list, known: list, cfg: dict = None):
+    """An open finding matches only if property, invariant, site, the trigger op kinds AND the configuration it is
+    about (`cfg_match`: simulation type, regularisation, ...) all match: another violation of the same property --
+    e.g. another simulation type failing in the same call -- is still reported."""
     kinds = [o["op"] for o in ops]
     for k in known:
         if k.get("status") != "open" or k.get("property") != prop:
+            continue
+        if k.get("cfg_match") and not all(_cfg_get(cfg or {}, kk) == vv for kk, vv in k["cfg_match"].items()):
             continue
         if k.get("invariant") != violation["invariant"]:
             continue
@@ -257,8 +270,12 @@ def run_batch(prop: str, engine: str, tier: str, base_seed: int, plan: dict) -> 
     vio = [r for r in results if r["status"] == "violation"]
     replay_dir = os.path.join(VERIF, "replays", prop)
     groups = {}
+    # violations are grouped by invariant, call site AND the part of the configuration that open findings are about
+    # (simulation type, regularisation, ...): a group is only as "known" as every one of its minimised members
+    sig_keys = sorted({kk for k in known if k.get("property") == prop for kk in (k.get("cfg_match") or {})} | {"type", "actor"})
     for r in vio:
-        groups.setdefault((r["violation"]["invariant"], r["violation"].get("site")), []).append(r)
+        sig = tuple(str(_cfg_get(r.get("cfg") or {}, kk)) for kk in sig_keys)
+        groups.setdefault((r["violation"]["invariant"], r["violation"].get("site"), sig), []).append(r)
     t_shrink0 = time.monotonic()
     for key, grp in sorted(groups.items(), key=lambda kv: str(kv[0])):
         grp.sort(key=lambda r: (len(r.get("ops", [])), r["seed"]))
@@ -274,7 +291,7 @@ def run_batch(prop: str, engine: str, tier: str, base_seed: int, plan: dict) -> 
             except Exception:  # noqa: BLE001
                 harness_errors.append("shrink failed: " + traceback.format_exc()[-1500:])
                 small = tr
-            k = match_known(prop, small.violation, small.ops, known)
+            k = match_known(prop, small.violation, small.ops, known, r.get("cfg"))
             verdicts.append(k)
             if k:
                 known_hits[k["key"]] += 1
